@@ -60,7 +60,9 @@ pub fn config(k: usize, scale: usize) -> (&'static str, VConfig<u64>) {
             c.swap_impact = PriceImpactParams::builder().exponent(2 * U).positive_factor(5).negative_factor(2).build();
             c.position_impact = PriceImpactParams::builder().exponent(2 * U).positive_factor(5).negative_factor(2).build();
             c.position = PositionParams::new(U, U, 100, 2_000, 2_000, 1_000);
-            "positive impact factor above negative, wide impact caps"
+            // a discount on the swap fees (the shared fee path with a discount configured)
+            c.swap_fee = c.swap_fee.with_discount_factor(2_000);
+            "positive impact factor above negative, wide impact caps, 20% discount on swap fees"
         }
         4 => {
             c.funding = FundingFeeParams::builder().exponent(U).funding_factor(40).max_factor_per_second(30).min_factor_per_second(0).increase_factor_per_second(0).decrease_factor_per_second(0).threshold_for_stable_funding(0).threshold_for_decrease_funding(0).build();
